@@ -12,6 +12,7 @@ import (
 	"fmt"
 	"math"
 	"net/netip"
+	"os"
 	"runtime"
 	"sort"
 	"strings"
@@ -2476,20 +2477,29 @@ func c03Sampled(t testing.TB, out *verifh.Out, rd *verifh.Rand, workers, steps i
 	}
 	chosen := append(append(thin(bad, 10), thin(midfl, 120)...), thin(quiet, 30)...)
 	sort.Ints(chosen)
-	line := []int64{5, int64(len(chosen))}
-	for _, i := range chosen {
-		sm := samples[i]
-		sc := table[sm.scope]
-		line = append(line, int64(sc.k), int64(sc.a))
-		line = append(line, c03LimWire(cfg.lims[sc.lim])...)
-		line = append(line, sm.obs[:]...)
-		lo, hi, _ := bounds(sm)
-		line = append(line, int64(workers))
-		for wi := range lo {
-			line = append(line, lo[wi][:]...)
-			line = append(line, hi[wi][:]...)
+	njudged := len(chosen)
+	// the samples go out in cases of at most 24 (short enough for the vm_compute cross-check of
+	// the extraction), the quiescent state in a case of its own
+	for len(chosen) > 0 {
+		n := min(24, len(chosen))
+		line := []int64{5, int64(n)}
+		for _, i := range chosen[:n] {
+			sm := samples[i]
+			sc := table[sm.scope]
+			line = append(line, int64(sc.k), int64(sc.a))
+			line = append(line, c03LimWire(cfg.lims[sc.lim])...)
+			line = append(line, sm.obs[:]...)
+			lo, hi, _ := bounds(sm)
+			line = append(line, int64(workers))
+			for wi := range lo {
+				line = append(line, lo[wi][:]...)
+				line = append(line, hi[wi][:]...)
+			}
 		}
+		out.Case(append(line, 0, 0))
+		chosen = chosen[n:]
 	}
+	line := []int64{5, 0}
 	// quiescence: every live holder with what it holds, and the Stat() of every shared scope
 	// and of every holder's own scope
 	nh := 0
@@ -2540,7 +2550,7 @@ func c03Sampled(t testing.TB, out *verifh.Out, rd *verifh.Rand, workers, steps i
 	out.Cover("sampled.runs")
 	out.CoverN("sampled.samples_taken", int64(len(samples)))
 	out.CoverN("sampled.samples_midflight", int64(len(midfl)))
-	out.CoverN("sampled.samples_judged", int64(len(chosen)))
+	out.CoverN("sampled.samples_judged", int64(njudged))
 	out.CoverN("sampled.samples_prefilter_bad", int64(len(bad)))
 	nops := 0
 	for _, w := range ws {
@@ -2565,6 +2575,13 @@ func TestVerifC03(t *testing.T) {
 	}
 	defer out.Close()
 	rd := verifh.NewRand(verifh.Seed())
+	if os.Getenv("VERIF_C03_ONLY") == "sampled" {
+		// development aid: only the concurrent runs with mid-flight samples
+		for i := 0; i < 40; i++ {
+			c03Sampled(t, out, rd.Fork(), 8, 200)
+		}
+		return
+	}
 	c03Corpus(t, out)
 	ncases, nconc := 1000, 16
 	if verifh.Tier() == "thorough" {
@@ -2581,9 +2598,10 @@ func TestVerifC03(t *testing.T) {
 	for i := 0; i < nconc; i++ {
 		c03Concurrent(t, out, rd.Fork(), 8, 400)
 	}
-	nsamp, ssteps := 10, 200
+	// a run takes ~30 ms; a seeded non-atomic check-and-add shows in roughly one run out of eight
+	nsamp, ssteps := 120, 200
 	if verifh.Tier() == "thorough" {
-		nsamp, ssteps = 80, 400
+		nsamp, ssteps = 1500, 300
 	}
 	for i := 0; i < nsamp; i++ {
 		c03Sampled(t, out, rd.Fork(), 8, ssteps)
